@@ -56,6 +56,13 @@ def sources(tier, wd, out, per_focus_quick=250, per_focus_thorough=1200, foci=FO
                      '<g opacity="0.5"><rect width="4" height="4"/>%s</g><rect x="6" width="3" height="3"/>'):
             res.append(("family/unsupported-in-group", '<svg xmlns="http://www.w3.org/2000/svg" viewBox="0 0 16 16">'
                         '<g opacity="0.5">%s</g><rect x="9" y="9" width="5" height="5"/></svg>' % (body % u), None))
+    # a gradient whose only user is passed-through text
+    for body in ('<path fill="blue" d="M0,0 L5,0 L5,5 Z"/><text fill="url(#a)" x="1" y="12">hi</text>',
+                 '<text x="1" y="12"><tspan fill="url(#a)">hi</tspan></text><rect width="3" height="3"/>',
+                 '<path fill="url(#a)" d="M0,0 L5,0 L5,5 Z" opacity="0"/><text fill="url(#a)" x="1" y="12">hi</text><rect width="3" height="3"/>'):
+        res.append(("family/text-gradient", '<svg xmlns="http://www.w3.org/2000/svg" viewBox="0 0 16 16"><defs><linearGradient id="a" '
+                    'gradientUnits="userSpaceOnUse" x2="9"><stop offset="0" stop-color="red"/><stop offset="1" stop-color="blue"/>'
+                    '</linearGradient></defs>%s</svg>' % body, None))
     # many digits requested: vertices a hair (around 1e-9) away from their subpath's start
     for d in ("M0,0 L8,0 L8,8 L0.0000000014,0 Z", "M2,2 L9,2 L9,9 L2.0000000009,2.0000000012 L2,2 Z",
               "M1,1 l5,0 l0,5 L1.0000000016,1 z M3,3 L4,3 L4,4 Z", "M0,0 L8,0 L8,8 L0.00000000051,0.0000000014 Z"):
